@@ -7,7 +7,7 @@
 //	     tss members / DE queues are set through the keepers, then oracle.BeginBlocker and
 //	     bandtss.BeginBlocker are called with chosen vote infos and proposer. Every account balance,
 //	     every validator's outstanding rewards, the community pool and the total supply are diffed
-//	     against the reference arithmetic of harness/ref/rewards.go plus model-free conservation
+//	     against the reference arithmetic of harness/ref/rewards/rewards.go plus model-free conservation
 //	     monitors.
 //	(ii) full block: empty blocks through FinalizeBlock with inflation on; the whole begin-block
 //	     chain mint -> oracle -> bandtss -> distribution is compared with the reference (which pins
@@ -41,7 +41,7 @@ import (
 	oracletypes "github.com/bandprotocol/chain/v3/x/oracle/types"
 	tsstypes "github.com/bandprotocol/chain/v3/x/tss/types"
 
-	"verif/harness/ref"
+	ref "verif/harness/ref/rewards"
 	"verif/harness/sim"
 )
 
@@ -237,10 +237,15 @@ func toSDK(c ref.Coins) sdk.Coins {
 	return out
 }
 
-var (
-	feeAddr   = authtypes.NewModuleAddress(authtypes.FeeCollectorName).String()
+// Set in main after the bech32 prefixes are configured (AccAddress.String() results are cached
+// process-wide by the SDK, so it must not be called before sim.InitConfig).
+var feeAddr, distrAddr string
+
+func initAddrs() {
+	sim.InitConfig()
+	feeAddr = authtypes.NewModuleAddress(authtypes.FeeCollectorName).String()
 	distrAddr = authtypes.NewModuleAddress(distrtypes.ModuleName).String()
-)
+}
 
 // ---------------------------------------------------------------------------------------------
 // model-free conservation monitors over one observed step
@@ -624,7 +629,7 @@ func (iw *isoWorld) runCase(run *sim.Run, i int) {
 
 	// --- tss members
 	used := map[string]bool{}
-	nMem := rng.Range(1, 5)
+	nMem := rng.Range(1, 7)
 	members := genMembers(rng, nMem, w.Users[1:], used)
 	switch rng.Intn(8) {
 	case 0: // everybody eligible
@@ -789,7 +794,7 @@ func (iw *isoWorld) runCase(run *sim.Run, i int) {
 	}
 	sort.Strings(cls)
 	run.Distinct(fmt.Sprintf("iso|%d|%d|%s|%s|%v|%d|%v|%v", opct, tpct, tax, pool, voters, proposer, members, isCurrent))
-	if !failed && i < 3 {
+	if !failed && i < 400 && !or.Remainder.IsZero() && !tr.Each.IsZero() && len(voters) >= 3 {
 		run.Sample(map[string]any{"mode": "iso", "case": i, "oracle_pct": opct, "tss_pct": tpct, "tax_e18": tax.String(), "pool": pool.String(),
 			"voters(power,active)": fmt.Sprint(voters), "proposer": proposer, "eligible_members": nElig,
 			"oracle_share": or.Share.String(), "oracle_remainder_to_proposer": or.Remainder.String(),
@@ -857,7 +862,7 @@ func runFullWorld(run *sim.Run, wi int, nBlocks int) {
 
 	// members
 	used := map[string]bool{}
-	members := genMembers(rng, rng.Range(1, 5), w.Users[1:], used)
+	members := genMembers(rng, rng.Range(1, 7), w.Users[1:], used)
 	if rng.Chance(2, 3) {
 		members[0].Active, members[0].DEMode = true, 1
 	}
@@ -1149,9 +1154,10 @@ func probeOver100(run *sim.Run) {
 
 func main() {
 	run := sim.NewRun("C14", "exploration")
+	initAddrs()
 	run.SetRule("iso case = one generated (fee pool, oracle pct, tss pct, community tax, vote set with powers, activity flags, proposer, member set with " +
 		"active flags and DE queues) evaluated by the real oracle and bandtss begin-blockers on a cache context and diffed (all balances, outstanding " +
-		"rewards, community pool, supply) against ref/rewards.go; full case = one empty block through FinalizeBlock with inflation, whole begin-block " +
+		"rewards, community pool, supply) against ref/rewards/rewards.go; full case = one empty block through FinalizeBlock with inflation, whole begin-block " +
 		"chain diffed against the reference; distinct = distinct input tuples")
 	run.Assume("vote infos / proposer in isolated mode are chosen by the harness (power taken from the vote, as the chain does); proposer is always a known validator",
 		"tss groups, members and DE queues are written through the keepers (no DKG); tss and bandtss member activity flags are kept equal, as the bandtss keeper does",
